@@ -321,6 +321,22 @@ def ac_sampled_ops(ctx):
             whole.append("AC_plain %s %d %d %d %d %d" % (w, x, y, z, k, rng.choice((1, 4))))
         _seg_ops(rng, w, x, y, z, k, _leaf_segments(rng, x, y, z, k, 2), kern)
         _c1_ops(rng, w, x, y, z, k, kern)
+    # whole runs with an A leaf x / (p q) EXACTLY on a boundary of the real segmentation (first segment size 7680): a `low <=`
+    # turned into `low <` loses exactly these leaves (mutation M6 of notes/wp-easy.md)
+    ps = [p for p in gen.primes_upto(900) if p > 250]
+    for _ in range(6 if ctx.quick else 40):
+        kq = rng.randint(1, 3)
+        i = rng.randrange(len(ps) - 20)
+        p_, q_ = ps[i], ps[i + rng.randint(1, 19)]
+        x = 7680 * kq * p_ * q_ + rng.randint(0, p_ * q_ - 1)
+        x13, sq = gen.iroot(3, x), gen.isqrt(x)
+        if not (6 * 10 ** 7 <= x <= 6 * 10 ** 9) or sq - 1 <= 3 * x13:
+            continue
+        y = rng.randint(3 * x13, sq - 1)
+        z = rng.randint(y, sq - 1)
+        w = rng.choice(("64", "128"))
+        whole.append("AC %s %d %d %d %d %d" % (w, x, y, z, gen.get_k(x), rng.choice((1, 4))))
+        whole.append("AC_plain %s %d %d %d %d 2" % (w, x, y, z, gen.get_k(x)))
     # beyond 2^63: kernels only (the mirror's table has to reach max(z, sqrt(x / x_star)) ~ x^(3/8))
     for x in ((2 ** 63 + rng.randint(0, 10 ** 9),) if ctx.quick else (2 ** 63 + rng.randint(0, 10 ** 9), 10 ** 19 + 3, 2 ** 65 + 1)):
         x13 = gen.iroot(3, x)
